@@ -197,6 +197,10 @@ def float_facts_selftest(nsamp=4000, seed=12345):
         xr = rng.choice([I(n) * u, I(n) * ub, I(n), 0.0, -0.0, I(n) * (1 - 2.0 ** -53), I(n) - 1 if n > 1 else 0.5, rng.random() * I(n)])
         if z <= xr and xr <= I(n): chk("floor_range", True, 0 <= fl(xr) <= n, xr, n)
         if z <= xr and xr < I(n): chk("floor_lt", True, 0 <= fl(xr) < n, xr, n)
+        # DealFact (Random/DealF.lean), B = 2^31: (double) a * esl_random() < (double) a
+        a31 = rng.choice([1, 2, 3, 2 ** 31 - 1, 2 ** 31, 2 ** 30, 2 ** 21, 2 ** 21 + 1, rng.randrange(1, 2 ** 31 + 1), rng.randrange(1, 5000)])
+        x32 = rng.choice([0, 1, 0xffffffff, 0xfffffffe, 0x80000000, 2147483649, rng.getrandbits(32)])
+        chk("DealFact", True, I(a31) * (float(x32) / 4294967296.0) < I(a31), a31, x32)
     return count, bad
 
 class C09(Prop):
@@ -207,10 +211,10 @@ class C09(Prop):
     theorems = ["EaselModel.Props.C09." + t for t in (
         "mt19937_stream", "mt19937_64_stream", "fast_stream", "reinit_replays", "reinit_reports_seed",
         "seed0_nonzero32", "seed0_nonzero64", "nonzero_seed_kept", "roll_lt", "roll_unbiased32", "roll_unbiased64",
-        "random_unit", "rand64_double_ranges", "deal_spec", "dchoose_nonzero",
+        "random_unit", "rand64_double_ranges", "deal_spec", "deal_spec_abstract", "dchoose_nonzero", "dchoose_never_fatal", "dchoosecdf_nonzero", "dchoosecdf_never_fatal",
         "rand64_deal_spec", "rand64_deal_spec_real", "rand64_deal_vprime_one_clamped", "rand64_deal_first_accepted",
         "uniformPositive_pos", "uniform_positive_unit", "gaussian_in_bounds", "gauss_table_sizes", "gamma_positive", "dirichlet_simplex",
-        "mem_bytes", "floatstring_fits", "samplers_replay", "mt_constants_published", "model_constants_regenerated",
+        "mem_bytes", "floatstring_fits", "samplers_replay", "mt_constants_published", "model_constants_regenerated", "temper_linear",
         "seed0_create_replays", "seed0_init_replays", "rand64_init_replays", "dump_in_bounds", "dump_in_bounds_reinit", "dump_prefix_out_of_bounds",
         "rand64_deal_spec_abstract", "rand64_deal_prefix_out_of_range", "rand64_deal_prefix_defect_carrier")] + ["EaselModel.MTP.fill_correct", "EaselModel.MTP.stream_eq_spec"]
     claimed = True
@@ -218,19 +222,24 @@ class C09(Prop):
     level_text = ("Theorems for all seeds and all stream positions: the model's MT19937 / MT19937-64 / LCG output equals the reference recurrence across any number of refills; "
                   "re-init replays; seed 0 gives a non-zero reported seed; Roll is the unbiased rejection map with equal-size preimages; doubles lie in their intervals; Deal gives m increasing in-range values. "
                   "The hand-written model is tied to the working tree by a bit-exact differential run over operation histories; any divergence is a concrete failing (seed, history).")
-    level_note = ("Trusted: Lean kernel + propext/Classical.choice/Quot.sound; the hand model's fidelity is checked (not proved) by the differential run; clock/pid inputs of seed selection are arbitrary inputs; "
-                  "rejection loops terminate with probability 1 (fuel in the model); float comparison in Deal assumed equal to exact comparison (L0); esl_rand64_Deal (Vitter D + A) is modelled exactly (binary64 through the Float instance, sample predicted bit for bit) "
-                  "and its structure theorem (m strictly increasing values in [0,n), every generator state) is proved over any ordered field with arbitrary exp/log oracles; "
+    level_note = ("Trusted: Lean kernel + propext/Classical.choice/Quot.sound; the hand model's fidelity is checked (not proved) by the differential run; clock/pid inputs of seed selection are explicit inputs "
+                  "(the harness owns time()/getpid()/clock(), so seed 0 is driven and predicted); rejection loops terminate with probability 1 (fuel in the model); float comparison in esl_rnd_Deal assumed equal to exact comparison (L0). "
+                  "esl_rand64_Deal (Vitter D + A) is modelled exactly (binary64 through the Float instance, sample and generator position predicted bit for bit); its structure theorem (m strictly increasing values in [0,n), every "
+                  "generator state) is proved twice: over any ordered field with arbitrary exp/log oracles, and over an ABSTRACT float carrier with uninterpreted operations assuming only FloatFacts (sign/monotonicity of single rounded "
+                  "operations, exact integers up to B=2^53, sign facts of exp/log, NaN propagation: every field sampled on binary64 at each run, 0 counterexamples) and n <= B; the pre-fix code (ba43348) is a proved counter-example on such a carrier. "
+                  "Generator constants are probed from the compiled C functions at every run and proved equal to the model's and to the published ones. "
                   "Gaussian/Gamma/Dirichlet/mem/floatstring are modelled and driven bit for bit, their support theorems are over R (L0 for binary64).")
     diverge_is_violation = True   # every op is a deterministic documented function of (seed, history)
     trusted_base = ["hand model of esl_random.c/esl_rand64.c tied by exact differential run (h_random.c, ASan+UBSan build of the working tree)",
                     "Lean compiler/runtime for the executable driver", "gcc; IEEE-754 division/multiplication by powers of two exact (L0)"]
-    assumptions = ["choose_arbitrary_seed's clock/pid are arbitrary inputs of the model",
-                   "rejection loops (Roll, UniformPositive) modelled with fuel 10^6: terminate with probability 1, not for every stream",
+    assumptions = ["choose_arbitrary_seed's time()/getpid()/clock() are explicit inputs of the model (harness interposes the three symbols under an `env` op)",
+                   "rejection loops (Roll, UniformPositive, Gaussian, Gamma, Deal64) modelled with fuel 10^6: terminate with probability 1, not for every stream",
                    "esl_rnd_Deal's double comparison equals the exact rational comparison (n < 2^31; separation 2^20 ulp) - checked by the differential run only",
-                   "esl_rand64_Deal: int64 skeleton modelled in Int (no overflow for 13*m < 2^63, n < 2^63); binary64 facts 0 <= exp(x), exp(x) <= 1 for x <= 0, log(u) <= 0 on [0,1] and exactness of integer-valued doubles below 2^53 are L0 (checked by the bit-exact differential run, not proved)",
-                   "test hooks pokeraw/pokeraw64 (overwrite a table word k draws ahead) are harness-only; every table content is a state of the generator's single cycle"]
-    rule = ("cases = operation histories (create/re-init/draw/roll/deal/choose) over boundary, power-of-two and random seeds; "
+                   "esl_rand64_Deal: int64 skeleton modelled in Int (no overflow for 13*m < 2^63, n < 2^63); the abstract-carrier theorem assumes FloatFacts F B (Random/Deal64Abs.lean: 28 facts about single rounded operations, each sampled on binary64 every run) and n <= B = 2^53 (vitter_a's skip loop relies on the integer-valued double `top` reaching exactly 0)",
+                   "esl_rand64_Deal cost: method D's slow path runs ~n/m iterations per rejected squeeze (observed: m=300, n=2^52 -> S=1.8e12); the generator keeps n/m <= 2e6 for m >= 2 (cost, not range: outside the property)",
+                   "test hooks pokeraw/pokeraw64 (overwrite a table word k draws ahead) and env (time/pid/clock) are harness-only; every table content is a state of the generator's single cycle",
+                   "Python reference streams in the monitor (MT19937, MT19937-64, LCG, mix3) are written from the published recurrences; self-checked against init_genrand64(5489) -> 14514284786278117030"]
+    rule = ("cases = operation histories (Create/CreateFast/CreateTimeseeded/Init incl. seed 0 under a controlled clock/pid, draw, raw words, roll, deal, choose, samplers, Dump, position) over boundary (1, 2^32-1, 2^32, 2^64-1), power-of-two and random seeds; "
             "non-trivial = history with at least one draw after a table refill or a derived draw; distinct by output trace")
 
     def generated(self, ctx):
@@ -365,7 +374,10 @@ class C09(Prop):
                         ops.append("unipos")
                     elif r < 0.78:
                         nn = rng.choice([1, 2, 5, 10, 100, rng.randrange(1, 3000)])
-                        ops.append("deal m=%d n=%d" % (rng.choice([0, 1, nn, nn // 2, rng.randrange(0, nn + 1)]), nn))
+                        if rng.random() < 0.04:     # beyond 2^21 the product (n-j)*x no longer fits 53 bits: the binary64 test, not the exact one
+                            nn = rng.choice([2**21, 2**21 + 1, 2**22 + 3, 3000000]); ops.append("deal m=%d n=%d" % (rng.choice([1, 2, 5]), nn))
+                        else:
+                            ops.append("deal m=%d n=%d" % (rng.choice([0, 1, nn, nn // 2, rng.randrange(0, nn + 1)]), nn))
                     elif r < 0.84 and mers:
                         # categorical choice at a forced boundary roll: float / double vectors from normalised counts
                         # (sums slightly off 1), zeros anywhere incl. trailing; roll = 0, max, or next to a cumulative sum
